@@ -64,6 +64,28 @@ func (fr *Frame) applySpec(sp *FuncSpec, fn *ssa.Function, name string, args []V
 			u.m.refAxiom(st.heap[cn.Name], st.alloc)
 		}
 	}
+	// ghost events: the call itself is the event
+	for _, ev := range sp.Events {
+		nkey := "ev|" + ev.Name + "|n"
+		cnt, ok := st.ghost[nkey]
+		if !ok {
+			cnt = u.ghostInit(nkey)
+		}
+		for k, a := range ev.Args {
+			t, err := env.evalTerm(a)
+			if err != nil {
+				u.unsupportedf("event %s argument %d: %v", ev.Name, k, err)
+				continue
+			}
+			akey := fmt.Sprintf("ev|%s|%d", ev.Name, k)
+			arr, ok := st.ghost[akey]
+			if !ok {
+				arr = u.ghostArrInit(akey, ArrSort(SInt, t.Sort))
+			}
+			st.ghost[akey] = u.c.Def("evarg", Store(arr, cnt, t))
+		}
+		st.ghost[nkey] = u.c.Def("evn", Add(cnt, IntLit(1)))
+	}
 	// results
 	var results []Value
 	n := sig.Results().Len()
